@@ -186,11 +186,10 @@ def renderOutcome (rule : Option Rule) (st : St) : Outcome → String
     | none => "401:-"
     | some r =>
       let algos := if stale ≠ 0 then stale else r.algorithm
-      let ch := if algos &&& 2 ≠ 0 then
-          toHex r.realm ++ "/MD5/" ++ epochHex st ++ "/" ++ (if r.secret.isSome then "3" else "2") ++ ".32/q1u" ++
-          (if r.userhash then "1" else "0") ++ "s" ++ (if stale ≠ 0 then "1" else "0")
-        else "?none"
-      "401:D:" ++ ch ++ kaStr ka
+      -- (no MD5 in the mask: no challenge is emitted and the header stays empty)
+      if algos &&& 2 = 0 then "401:-" ++ kaStr ka else
+      "401:D:" ++ toHex r.realm ++ "/MD5/" ++ epochHex st ++ "/" ++ (if r.secret.isSome then "3" else "2") ++ ".32/q1u" ++
+          (if r.userhash then "1" else "0") ++ "s" ++ (if stale ≠ 0 then "1" else "0") ++ kaStr ka
   | .s400 => "400"
   | .s500 => "500"
 
